@@ -187,6 +187,18 @@ if bad is None:
     tag = pa.get('tag', only_real_particles=False); nr = pa.num_real_particles
     if nr != 8 or (tag[:nr] != 0).any():
         bad = dict(problem='Remote particles inside the first num_real_particles slots after re-ordering', tags=tag.tolist(), num_real_particles=int(nr))
+if bad is None:
+    # a strided property followed by ordinary ones: each with its own stride
+    pa = get_particle_array(name='p', x=rng.rand(50), y=rng.rand(50), h=0.1)
+    pa.add_property('mat9', stride=4); pa.mat9[:] = np.repeat(np.arange(50.0), 4)
+    pa.add_property('q9'); pa.q9[:] = np.arange(50.0)
+    pa.add_property('r9', type='int'); pa.r9[:] = np.arange(50)
+    nn = nnps.LinkedListNNPS(dim=2, particles=[pa])
+    nn.spatially_order_particles(0)
+    q = pa.get('q9', only_real_particles=False); r = pa.get('r9', only_real_particles=False)
+    mt = pa.get('mat9', only_real_particles=False).reshape(-1, 4)
+    if sorted(q.tolist()) != list(map(float, range(50))) or (r != q).any() or not (mt == q[:, None]).all():
+        bad = dict(problem='properties declared after a strided one are not permuted with the rest', q9=q.tolist()[:10], r9=r.tolist()[:10], mat9_first_column=mt[:, 0].tolist()[:10])
 print(json.dumps(dict(bad=bad)))
 '''
 
